@@ -115,7 +115,11 @@ var c03StoredDef = []c03Cert{
 	{ID: "Lw", Names: []string{"*.b.x"}},
 	{ID: "Lz", Names: []string{"zz.x"}, Expired: true},
 }
-var c03Storages = map[string][]string{"empty": nil, "valid-a": {"La"}, "expired-a": {"Lx"}, "wild-b+expired-zz": {"Lw", "Lz"}}
+var c03Storages = map[string][]string{"empty": nil, "valid-a": {"La"}, "expired-a": {"Lx"}, "wild-b+expired-zz": {"Lw", "Lz"},
+	"broken-qb+wild-b": {"Lw"}, "broken-wild-b+valid-a": {"Lw", "La"}}
+
+// names whose resources cannot be read in a storage variant: Load fails with an error that is not fs.ErrNotExist
+var c03Broken = map[string][]string{"broken-qb+wild-b": {"q.b.x"}, "broken-wild-b+valid-a": {"*.b.x"}}
 
 func c03Make(ca *doubles.CA, c *c03Cert) error {
 	o := doubles.LeafOpts{Names: c.Names}
@@ -310,6 +314,21 @@ func (env *c03Env) setStorage(variant string) {
 		env.backend.Put(c03StorageKey("dbl", n, ".json"), meta)
 	}
 	env.backend.Log.Ops = nil
+	env.backend.Log.Hook = nil
+	if br := c03Broken[variant]; len(br) > 0 {
+		bad := map[string]bool{}
+		for _, n := range br {
+			for _, ext := range []string{".crt", ".key", ".json"} {
+				bad[c03StorageKey("dbl", n, ext)] = true
+			}
+		}
+		env.backend.Log.Hook = func(op *doubles.Op) error {
+			if op.Kind == "Load" && bad[op.Key] {
+				return fmt.Errorf("storage double: injected read failure for %s", op.Key)
+			}
+			return nil
+		}
+	}
 }
 
 // c03Covers: the reference meaning of "san covers name": equal, or name with its k >= 1 leftmost
@@ -611,6 +630,7 @@ func (env *c03Env) lookupCase(w *emit.Writer, in c03In, class string) error {
 			env.loadedNotCovering = append(env.loadedNotCovering, c.ID)
 		}
 	}
+	e.StrList(c03Broken[in.Storage])
 	encVictim(e, victim)
 	obs := map[string]any{}
 	res := "error"
@@ -941,6 +961,23 @@ func runC03(tier string, seed int64, outdir string, replay string) error {
 			return err
 		}
 	}
+	// the almost-full boundary (size against 0.9 x capacity) and the storage fault points: caches of
+	// 8..11 certificates none of which covers "q.b.x", capacities size..size+3
+	{
+		nonCovering := []string{"e1", "e2", "e3", "w1", "w2", "i1", "i2", "i6", "fb", "fx", "df"}
+		for size := 8; size <= 11; size++ {
+			for capacity := size; capacity <= size+3; capacity++ {
+				for _, stv := range []string{"wild-b+expired-zz", "broken-qb+wild-b", "broken-wild-b+valid-a"} {
+					for _, q := range []string{"q.b.x", " Q.B.X ", "a.b.x", "zz.x"} {
+						in := c03In{Certs: nonCovering[:size], Cap: capacity, Fallback: "fb.y", SNI: q, Local: "127.0.0.1", Storage: stv}
+						if err := env.lookupCase(w, in, "almost-full-boundary"); err != nil {
+							return err
+						}
+					}
+				}
+			}
+		}
+	}
 	// ---- MatchWildcard and normalizedName ----
 	labelAlpha := []string{"a", "b", "", "*"}
 	var namesU []string
@@ -1133,7 +1170,7 @@ func runC03(tier string, seed int64, outdir string, replay string) error {
 			Policy: []string{"", "min", "max", "good-min", "good-min", "refuse"}[r.Intn(6)],
 			Hello:  []string{"", "", "ed25519", "rsa", "tls12"}[r.Intn(5)]}
 		if in.Cap > 0 && r.Intn(2) == 0 {
-			in.Storage = []string{"valid-a", "expired-a", "wild-b+expired-zz"}[r.Intn(3)]
+			in.Storage = []string{"valid-a", "expired-a", "wild-b+expired-zz", "broken-qb+wild-b", "broken-wild-b+valid-a"}[r.Intn(5)]
 			if r.Intn(2) == 0 {
 				in.SNI = storageQueries[r.Intn(len(storageQueries))]
 			}
@@ -1156,7 +1193,7 @@ func runC03(tier string, seed int64, outdir string, replay string) error {
 		}
 		capacity := []int{0, n, n + 1, n + 2, n + 5}[r.Intn(5)]
 		cf := c03Configs[r.Intn(len(c03Configs))]
-		stv := []string{"empty", "empty", "valid-a", "expired-a", "wild-b+expired-zz"}[r.Intn(5)]
+		stv := []string{"empty", "empty", "valid-a", "expired-a", "wild-b+expired-zz", "broken-qb+wild-b", "broken-wild-b+valid-a"}[r.Intn(7)]
 		for k := 0; k < 6; k++ {
 			q := c03Queries[r.Intn(len(c03Queries))]
 			if k >= 4 {
